@@ -3,6 +3,7 @@ poly and poly_p, sentinel-prefilled object on the throwing path) against Model/S
 written rules in Driver/SettersH.lean."""
 import os
 import checklib as cl
+import _set_common as _sc
 
 COMMON_TB = [
     "Lean 4.33.0 kernel; axioms limited to propext, Classical.choice, Quot.sound (audited by #print axioms on every run)",
@@ -92,7 +93,7 @@ def search(ctx, res, problems):
 
 
 PROP = {
-    "streams": streams, "search": search,
+    "streams": streams, "translators": _sc.translators_set, "search": search,
     "rule": "every setter entry point (set / set_mpz / constructors / operator=, poly and poly_p; pointer, vector, initializer-list, std::array, wider and narrower integer sources) × every list length 0…degree·moduli+1 × reduce on/off × value patterns built from 0, 1, p-1, p, p+1, 2p, 2^w-1, lazy words, random (native) and 0, ±1, ±(p-1), ±p, ±2^64, ±multi-hundred-bit, negative multiples of p (big integers); object pre-filled with a random sentinel; each line = one call compared with the model and with the directly written rules; distinct = distinct lines",
     "trusted_base": COMMON_TB + ["GMP: mpz_fdiv_ui(z,p) returns the floor remainder (contract; the harness compares it with an independent floor-mod on every line)",
                                  "std::distance / iterator comparison `viter < last` behave as for random-access iterators (all sources used are contiguous)"],
